@@ -17,7 +17,7 @@ RULE = ("Concurrent histories on the harness-scheduled asyncio driver: 2-4 calle
 
 PROP = Prop(
     "C01", level="exploration", rule=RULE,
-    layers=[Layer("histories", strategy=scenarios, execute=make_execute("C01"), budget={"quick": 3000, "thorough": 120000})],
+    layers=[Layer("histories", strategy=scenarios, execute=make_execute("C01"), budget={"quick": 3000, "thorough": 60000})],
     assumptions=["the server always sends exactly one well-framed final response per complete request (malformed data is C15's domain)",
                  "asyncio driver (schedules are sampled by a harness-owned scheduler and reproducible from the replay file); threads are covered by C08",
                  "runs in which a listed open C05 finding fired are judged as usual; their signature carries the cancellation site"],
